@@ -100,7 +100,6 @@ class Unfolder:
         s.set("timeout", timeout_ms)
         if seed:
             s.set("smt.random_seed", seed)
-            s.set("sat.random_seed", seed)
         if not mbqi:
             s.set("smt.mbqi", False)
         if with_axioms:
@@ -108,10 +107,38 @@ class Unfolder:
             s.set("smt.auto_config", False)
             for a in self.axioms():
                 s.add(a)
-        for h in hyps + lemmas + list(extra):
+        allh = hyps + lemmas + list(extra)
+        if seed:
+            # the order of the assertions steers z3's instantiation: a different (deterministic) order per attempt
+            import random as _random
+            _random.Random(seed).shuffle(allh)
+        for h in allh:
             s.add(h)
         s.add(z3.Not(g))
+        self.last_apps = len(acc)
         return s.check()
+
+
+def _relevance_stage(ob, timeout_ms, t0):
+    """all quantifier-free hypotheses plus only those quantified ones that share an uninterpreted symbol with the goal, or (second
+    round) with a hypothesis selected so far; a proof from a subset of the hypotheses is a proof"""
+    try:
+        for rounds in (1, 2):
+            sub = _relevant(ob.pc, ob.goal, rounds)
+            if len(sub) == len(ob.pc):
+                break
+            for mbqi in (False, True):
+                st = z3.Solver()
+                st.set("timeout", min(timeout_ms, int(1500 * SCALE)))
+                st.set("smt.mbqi", mbqi)
+                for p in sub:
+                    st.add(p)
+                st.add(z3.Not(ob.goal))
+                if st.check() == z3.unsat:
+                    return "proved", f"z3(relevant hypotheses, round {rounds})", (time.time() - t0) * 1000, None
+    except z3.Z3Exception:
+        pass
+    return None
 
 
 def _discharge(ob, timeout_ms, unfolder=None, lemmas=(), twin_lemmas=()):
@@ -139,8 +166,13 @@ def _discharge(ob, timeout_ms, unfolder=None, lemmas=(), twin_lemmas=()):
         # a small portfolio: quantifier instantiation is order-sensitive, so an attempt that gives up quickly is
         # retried with other seeds / without MBQI (each attempt is sound on its own)
         off = int(os.environ.get("PYVC_SEED_OFFSET", "0"))
-        for seed, mbqi in ((0 + off, False), (1 + off, True), (2 + off, False), (3 + off, True)):
-            stop = False
+        plan = ((0 + off, False), (1 + off, True), (2 + off, False), (3 + off, True))
+        stop = False
+        for ci, (seed, mbqi) in enumerate(plan):            # the depth ladder of one configuration, then the next configuration
+            if ci == 1:
+                got = _relevance_stage(ob, timeout_ms, t0)      # after the plain ladder failed: fewer hypotheses
+                if got is not None:
+                    return got
             for depth in (1, 2, 3):
                 try:
                     r = unfolder.attempt(ob.pc, ob.goal, depth, min(timeout_ms, int((500 + 700 * depth) * SCALE)), extra=twin_lemmas,
@@ -149,9 +181,25 @@ def _discharge(ob, timeout_ms, unfolder=None, lemmas=(), twin_lemmas=()):
                     stop = True
                     break
                 if r == z3.unsat:
-                    return "proved", f"z3(unfold depth {depth})", (time.time() - t0) * 1000, None
-            if stop or (time.time() - t0) > 12 * SCALE:
+                    return "proved", f"z3(unfold depth {depth}, seed {seed - off}{', mbqi' if mbqi else ''})", (time.time() - t0) * 1000, None
+                if (time.time() - t0) > 14 * SCALE:
+                    stop = True
+                    break
+            if stop:
                 break
+        if True:
+            # flat portfolio: many short attempts with different seeds and assertion orders find the quick proof of a
+            # quantifier-heavy VC far more reliably than one long attempt
+            for k in range(11, 21):
+                try:
+                    r = unfolder.attempt(ob.pc, ob.goal, 2, min(timeout_ms, int(2000 * SCALE)), extra=twin_lemmas, seed=k + off,
+                                         mbqi=(k % 2 == 0))
+                except z3.Z3Exception:
+                    break
+                if r == z3.unsat:
+                    return "proved", f"z3(portfolio, attempt {k})", (time.time() - t0) * 1000, None
+                if (time.time() - t0) > 24 * SCALE:
+                    break
         if unfolder.specs:
             try:
                 if unfolder.attempt(ob.pc, ob.goal, 2, min(timeout_ms, int(4000 * SCALE)), with_axioms=True, extra=twin_lemmas) == z3.unsat:
@@ -251,6 +299,50 @@ def _witness_instances(pc, goal, limit=24):
                     insts.append(b if positive else z3.Not(b))
     universals(z3.Not(goal), True)
     return hyps, insts
+
+
+def _symbols(e, cache={}):
+    k = e.get_id()
+    if k in cache:
+        return cache[k][1]
+    out = set()
+    stack = [e]
+    seen = set()
+    while stack:
+        x = stack.pop()
+        i = x.get_id()
+        if i in seen:
+            continue
+        seen.add(i)
+        if z3.is_quantifier(x):
+            stack.append(x.body())
+        elif z3.is_app(x):
+            if x.decl().kind() == z3.Z3_OP_UNINTERPRETED or x.decl().kind() == z3.Z3_OP_RECURSIVE:
+                out.add(x.decl().name())
+            stack.extend(x.children())
+    cache[k] = (e, out)
+    return out
+
+
+def _relevant(pc, goal, rounds):
+    want = set(_symbols(goal))
+    chosen = [False] * len(pc)
+    quant = [_has_quant(p) for p in pc]
+    for i, p in enumerate(pc):
+        if not quant[i]:
+            chosen[i] = True
+    for _ in range(rounds):
+        add = set()
+        for i, p in enumerate(pc):
+            if not chosen[i] and (_symbols(p) & want):
+                chosen[i] = True
+                add |= _symbols(p)
+        if _ == 0:
+            for i, p in enumerate(pc):
+                if chosen[i] and not quant[i] and (_symbols(p) & want):
+                    add |= _symbols(p)
+        want |= add
+    return [p for i, p in enumerate(pc) if chosen[i]]
 
 
 def _has_quant(e):
